@@ -147,6 +147,7 @@ func runC07(c *Ctx) {
 		k++
 	}
 	c.Extra["flag_sweep"] = fmt.Sprintf("%d of 4096 combinations of 12 O_* bits (step %d)", k, step)
+	runOSBase(c, "C07")
 	for i := 0; i < n; i++ {
 		st := stacks[i%len(stacks)]
 		items := genC07(c.Rng.Fork(), st)
